@@ -384,7 +384,7 @@ def explore(rec):
     rec.hyp("random-programs", run_case_st(typed=True), 6000 if quick else 120000)
     rec.hyp("metamorphic", meta_case_st(), 1500 if quick else 30000)
     rec.hyp("cli", run_case_st(max_features=2, typed=True).map(lambda c: dict(c, kind="cli")),
-            16 if quick else 320)
+            48 if quick else 640)
     rec.hyp("runner-route", run_case_st(max_features=2, typed=True, cfg=gen.cfg_st(flags=("stop", "dry_run", "wip_flag"))).map(
         lambda c: dict(c, kind="runner")), 1500 if quick else 30000)
     rec.hyp("aborted-runs", abort_case_st(), 1500 if quick else 30000)
